@@ -13,7 +13,8 @@ def replay(ctx, rep):
     from harness import krun, common
     case = rep['case']
     if case.get('scenario'):
-        return common.scenario_replay(ctx, rep, {'proxy': proxy_scenarios, 'evolving': evolving_scenarios})
+        return common.scenario_replay(ctx, rep, {'proxy': proxy_scenarios, 'evolving': evolving_scenarios,
+                                                   'oppfilled': opposite_filled_scenarios})
     r = krun.Run(case, ['C07']).run()
     for s in r.steps:
         print(s['op'], '->', s['outcome'])
@@ -40,8 +41,9 @@ def proxy_scenarios(ctx, out):
     from pyecore.ecore import EClass, EAttribute, EReference, EString, EPackage, EProxy
     from pyecore.resources import ResourceSet, URI
     rng = common.rng_for(ctx.seed, 'C07:proxy')
+    rng_m = common.rng_for(ctx.seed, 'C07:proxy-merge')
     n = 70 if ctx.tier != 'thorough' else 900
-    cnt = proxies = 0
+    cnt = proxies = merged = 0
     for it in range(n):
         Node = EClass('Node')
         Node.eStructuralFeatures.append(EAttribute('name', EString))
@@ -131,6 +133,28 @@ def proxy_scenarios(ctx, out):
             if not all(b in loaded for b in bnames):
                 continue          # nothing of b.xmi was referenced: no proxy, nothing to test
             unwrap = lambda v: getattr(v, '_wrapped', None) if isinstance(v, EProxy) else v   # noqa
+            # the two documents are then possibly MERGED (or taken out of their resources): the holder of a resolved
+            # proxy and its target may lie in the same resource, or in none, when delete() is called
+            lb = next((r for r in rset2.resources.values() if r is not la), None)
+            merge = rng_m.choice(['none', 'none', 'a-into-b', 'b-into-a', 'one-a-into-b', 'both-out', 'a-out', 'b-out'])
+            if lb is None:
+                merge = 'none'
+            plan['merge'] = merge
+            if merge == 'a-into-b':
+                for root in list(la.contents):
+                    lb.append(root)
+            elif merge == 'one-a-into-b':
+                lb.append(rng_m.choice(list(la.contents)))
+            elif merge == 'b-into-a':
+                for root in list(lb.contents):
+                    la.append(root)
+            if merge in ('both-out', 'a-out'):
+                for root in list(la.contents):
+                    la.remove(root)
+            if merge in ('both-out', 'b-out'):
+                for root in list(lb.contents):
+                    lb.remove(root)
+            merged += merge != 'none'
 
             def snapshot():
                 d = {}
@@ -198,6 +222,7 @@ def proxy_scenarios(ctx, out):
                 out.fail(sig, f'after {victim}.delete(recursive={recursive}): {bad[0][1]}', case)
     out.coverage['proxy_delete_cases'] = cnt
     out.coverage['proxy_delete_proxies_resolved'] = proxies
+    out.coverage['proxy_delete_merged_resources'] = merged
 
 
 _kernel_run = run
@@ -418,3 +443,152 @@ _run_p = run
 def run(ctx, out):   # noqa: F811
     _run_p(ctx, out)
     evolving_scenarios(ctx, out)
+
+
+# ---------------------------------------------------------------------------
+# bidirectional references of every collection kind (ordered set / list / bag / unordered set ends, single ends)
+# whose ends are filled from ONE side only, from the other side only, or from both: the value of an end that was
+# never written directly exists only through the opposite bookkeeping; delete() must empty it all the same
+# (oracle on the implementation only: a plain before/after comparison of every reference of every object)
+
+def opposite_filled_scenarios(ctx, out):
+    from harness import common
+    common.use_repo()
+    from pyecore import ecore as E
+    rng = common.rng_for(ctx.seed, 'C07:oppfilled')
+    n = 150 if ctx.tier != 'thorough' else 2500
+    cnt = far_only = 0
+    for it in range(n):
+        A, B = E.EClass('A'), E.EClass('B')
+        for c in (A, B):
+            c.eStructuralFeatures.append(E.EAttribute('name', E.EString))
+        A.eStructuralFeatures.append(E.EReference('kids', A, upper=-1, containment=True))
+        A.eStructuralFeatures.append(E.EReference('plain', B, upper=-1, unique=rng.random() < 0.5))
+        B.eStructuralFeatures.append(E.EReference('back', A))
+        pairs = []
+        for k in range(rng.randrange(1, 4)):
+            host, other = rng.choice([(A, B), (B, A), (A, A)])
+            kw1 = {'upper': -1, 'unique': rng.random() < 0.4, 'ordered': rng.random() < 0.7}
+            kw2 = rng.choice([{}, {}, {'upper': -1, 'unique': rng.random() < 0.5, 'ordered': rng.random() < 0.7}])
+            r1 = E.EReference(f'p{k}', other, **kw1)
+            r2 = E.EReference(f'q{k}', host, **kw2)
+            host.eStructuralFeatures.append(r1)
+            other.eStructuralFeatures.append(r2)
+            r1.eOpposite = r2
+            policy = rng.choice(['far', 'far', 'near', 'mixed'])
+            pairs.append((host, other, r1, r2, policy))
+        hist = [['pair', h.name, r1.name, {k: v for k, v in (('unique', r1.unique), ('ordered', r1.ordered))},
+                 o.name, r2.name, {'many': r2.many, 'unique': r2.unique, 'ordered': r2.ordered}, pol]
+                for h, o, r1, r2, pol in pairs]
+        objs = [A(name=f'a{i}') for i in range(rng.randrange(2, 5))] + [B(name=f'b{i}') for i in range(rng.randrange(2, 4))]
+        As = [o for o in objs if isinstance(o, A.python_class)]
+        Bs = [o for o in objs if isinstance(o, B.python_class)]
+        inst = {A: As, B: Bs}
+        # a containment forest over the A's
+        for i, o in enumerate(As[1:], 1):
+            if rng.random() < 0.5:
+                par = rng.choice(As[:i])
+                par.kids.append(o)
+                hist.append(['link', par.name, 'kids', o.name])
+        for o in As:
+            for t in rng.sample(Bs, rng.randrange(0, len(Bs))):
+                o.plain.append(t)
+                hist.append(['link', o.name, 'plain', t.name])
+        for o in Bs:
+            if rng.random() < 0.5:
+                o.back = rng.choice(As)
+                hist.append(['link', o.name, 'back', o.back.name])
+        written = set()       # (object name, feature name) ever written directly
+        for host, other, r1, r2, policy in pairs:
+            for _ in range(rng.randrange(2, 7)):
+                side = {'far': 'far', 'near': 'near'}.get(policy) or rng.choice(['far', 'near'])
+                h, o = rng.choice(inst[host]), rng.choice(inst[other])
+                if side == 'near':
+                    src, f, dst = h, r1, o
+                else:
+                    src, f, dst = o, r2, h
+                if f.many:
+                    col = src.eGet(f.name)
+                    if any(x is dst for x in col):
+                        continue       # (twice the same partner in a non-unique end: not generated)
+                    col.append(dst)
+                else:
+                    if src.eGet(f.name) is dst:
+                        continue       # (x.q = a; x.q = a puts x twice into a non-unique a.p: reported, not generated)
+                    src.eSet(f.name, dst)
+                written.add((src.name, f.name))
+                hist.append(['link', src.name, f.name, dst.name])
+
+        def snap():
+            s = {}
+            for o in objs:
+                d = {}
+                for f in o.eClass.eAllReferences():
+                    v = o.eGet(f.name)
+                    d[f.name] = [x.name for x in v] if f.many else (v.name if v is not None else None)
+                c = o.eContainer()
+                s[o.name] = (d, c.name if c is not None else None)
+            return s
+
+        def subtree(o):
+            r = [o]
+            for x in o.eGet('kids') if isinstance(o, A.python_class) else []:
+                r += subtree(x)
+            return r
+        # the deleted object: often one that holds something in an end it never wrote itself
+        cands = [o for o in objs for f in o.eClass.eAllReferences()
+                 if f.eOpposite is not None and (o.name, f.name) not in written
+                 and (len(o.eGet(f.name)) if f.many else o.eGet(f.name) is not None)]
+        victim = rng.choice(cands) if cands and rng.random() < 0.7 else rng.choice(objs)
+        far_only += any(victim is c for c in cands)
+        recursive = rng.random() < 0.7
+        D = subtree(victim) if recursive else [victim]
+        Dn = {x.name for x in D}
+        before = snap()
+        case = {'scenario': 'oppfilled', 'seed': ctx.seed, 'tier': ctx.tier,
+                'history': hist + [['delete', victim.name, recursive]]}
+        sig = {'property': 'C07', 'clause': None, 'scenario': 'oppfilled', 'recursive': recursive}
+        try:
+            victim.delete(recursive=recursive)
+        except Exception as e:  # noqa
+            sig['clause'] = 'delete-raised'
+            out.fail(sig, f'{victim.name}.delete(recursive={recursive}) raised {type(e).__name__}: {e}', case)
+            continue
+        cnt += 1
+        after = snap()
+        bad = []
+        unordered = {f.name for c in (A, B) for f in c.eAllReferences() if f.many and not f.ordered}
+        for o in objs:
+            (bd, bc), (ad, ac) = before[o.name], after[o.name]
+            if o.name in Dn:
+                if ac is not None:
+                    bad.append(('deleted-keeps-container', f'{o.name} still has the container {ac}'))
+                for f, v in ad.items():
+                    if v not in (None, []) and not (f == 'kids' and not recursive):
+                        bad.append(('deleted-holds-references', f'{o.name}.{f} still holds {v}'))
+            else:
+                for f, v in ad.items():
+                    old = bd.get(f)
+                    exp = [x for x in old if x not in Dn] if isinstance(old, list) else (None if old in Dn else old)
+                    hold = [x for x in (v if isinstance(v, list) else [v]) if x in Dn]
+                    if hold:
+                        bad.append(('dangling', f'{o.name}.{f} still holds the deleted {hold}'))
+                    elif v != exp and not (f in unordered and sorted(v) == sorted(exp)):
+                        bad.append(('survivor-changed', f'{o.name}.{f} was {old}, is {v}'))
+                if ac in Dn and not (not recursive and bc == victim.name):
+                    bad.append(('dangling', f'{o.name} is still contained in the deleted {ac}'))
+                elif recursive and ac != bc:
+                    bad.append(('survivor-changed', f'container of {o.name} was {bc}, is {ac}'))
+        if bad:
+            sig['clause'] = bad[0][0]
+            out.fail(sig, f'after {victim.name}.delete(recursive={recursive}): {bad[0][1]}', case)
+    out.coverage['opposite_filled_delete_cases'] = cnt
+    out.coverage['opposite_filled_victim_holds_unwritten_end'] = far_only
+
+
+_run_e = run
+
+
+def run(ctx, out):   # noqa: F811
+    _run_e(ctx, out)
+    opposite_filled_scenarios(ctx, out)
